@@ -6,7 +6,8 @@ CONSTANTS
   CondLogic <- Zeros
   AsFoundWake = FALSE
   AsFoundCleanup = FALSE
-  Programs <- ProgQuick
+  Which = "ProgQuick"
+  Programs <- ProgSel
 SPECIFICATION Spec
 INVARIANTS TypeOK MTypeOK ChannelFifoOnce MutexExclusive SemaphoreBound FailureOnlyWhenCancelled CancelFails JoinReturnsOk NoLostWakeup ReadyRan CancelTerminates IdleObservation CleanupReturns AllTerminated
 CONSTRAINT EmitProg
